@@ -23,6 +23,18 @@ INFO = {
  'C17': ('gap() casts the magnitudes to f32 before subtracting', 'huge, close, same-sign bounds (closer than one f32 ulp)'),
  'C18': ('SimpleCache::update_threshold = read-only fast path (get) followed by an unconditional insert', 'two threads updating the same key, both checking before either stores'),
  'C19': ('NoDupFringe::push lowers the ub of a duplicate (longer path, smaller ub) without re-heapifying', 'NoDupFringe, a duplicate with a longer path and a smaller ub, a heap descendant with a bound in between, the cut-off firing between the two out-of-order pops'),
+ 'C01b': ('Mdd and Pooled _relax: the statement flagging the merged node relaxed is deleted (a new node is created relaxed; a RECYCLED kept node no longer is)', 'merge result equal to the state of a kept node, exact best path through the recycled node: is_exact claimed, cut-set dropped'),
+ 'C03b': ('get_workload waits on the monitor in the cache-skip branch when the fringe became empty', 'SimpleCache, the last open node rejected by the cache while nothing is in progress (the same family of change as the first C04 seed, found independently)'),
+ 'C04b': ('notify_node_finished wakes ONE waiter instead of all when exactly one node is open', '>= 3 workers, two parked, the woken worker finishing without producing work: the other stays parked although ongoing == 0'),
+ 'C05b': ('NoDupFringe::push: arguments of the comparison deciding BubbleUp swapped (a raised entry keeps its heap position)', 'a waiting (state, depth) pushed again with a larger ub, a cut-off between the out-of-order pops: best_upper_bound below an open node'),
+ 'C06b': ('Pooled::_compile stops at the first EMPTY LAYER instead of when the pool is empty', 'long arcs: a variable irrelevant for every pooled node gives an empty layer although nodes remain -- truncated diagram, wrong bound, exactness claimed'),
+ 'C07b': ('Mdd::_maybe_save_lel refuses to record the root layer as last exact layer', 'restricted diagram restricted on its very first layer below the root: lel stays None, is_exact() true'),
+ 'C08b': ('first-layer squash guard keyed on absolute depth (curr_depth > 1) instead of the number of layers of this diagram', 'a residual sub-problem at depth >= 1 with more children than the width: the layer right below the root is merged, cut-set = root or no progress'),
+ 'C09b': ('SimpleCache::update_threshold maximises value and explored component-wise (the explored flag sticks)', 'stored (t, explored) then update (v > t, not explored): (v, explored) -- a cut-set node arriving with value v is dropped at pop'),
+ 'C11b': ('NoDupFringe index keyed by the state alone again (reverts the repair of D1 in struct, push and pop)', 'equal states at different depths open at the same time'),
+ 'C14b': ('parallel maybe_update_best compares with the lower bound snapshot taken before the compilation and then writes unconditionally', 'a better incumbent (e.g. set_primal value or another worker) installed between snapshot and write'),
+ 'C16b': ('alp example: break out of the runway loop of the domain at the first runway that is too late', '>= 2 runways whose last landed classes need different separations'),
+ 'C18b': ('SimpleDominanceChecker::is_dominated_or_insert: entry() replaced by get_mut() then blind insert for a new key', 'two threads recording the first two states of the same (depth, key): one front overwrites the other'),
  'C20': ('Mdd::add_terminal_node drops the best_node.is_some() guard', 'infeasible diagram with the dead end exactly on the last variable'),
 }
 HISTORY = {
@@ -36,11 +48,13 @@ HISTORY = {
  'C16': 'first run: MISSED (only symmetric travel-time matrices were generated) -> all asymmetric matrices on 3 nodes + deviation-bounded asymmetry on 4 nodes',
  'C17': 'first run: MISSED by the quick grid (no close pairs at large magnitudes; the thorough grid had them) -> neighbours v+-1, v+2 of every large grid value',
  'C19': 'first run: MISSED by C19 (caught by C11 at the container level): needs 6-7 item knapsacks -> KPB-6 / KPB-7 complete families in the cut-off plans',
+ 'C03b': 'caught by C04 and C09 (single-worker sweep: hang confirmed by the second, longer run); C03 reports it as par:no-result:deadlock when its budget reaches a caching unit',
+ 'C06b': 'first run: caught by C15 and C01, MISSED by C06 under load (the irrelevance plans came last and the cap cut them) -> plans are now run cheapest first, the irrelevance families are reached in every quick run',
 }
 results = {}
 for f in sys.argv[1:]:
     for l in open(f):
-        m = re.match(r'SEED seed(C\d+) suite\(pass/fail\)=(.*?)\s+demo-with-change\(pass/fail\)=(\S+) demo-without\(pass/fail\)=(\S+) checks:(.*)', l)
+        m = re.match(r'SEED seed(C\d+b?) suite\(pass/fail\)=(.*?)\s+demo-with-change\(pass/fail\)=(\S+) demo-without\(pass/fail\)=(\S+) checks:(.*)', l)
         if m: results[m.group(1)] = m.groups()[1:]
 rows = []
 for pid in sorted(results):
